@@ -132,6 +132,17 @@ func runC12(c *an.Ctx) {
 				idIdx = strings.TrimSuffix(strings.TrimPrefix(e, "r.transformationPrefixIDs["), "]")
 			}
 		}
+		narrowed := ""
+		for fname, v := range k.fields {
+			if cv, isCv := v.(*ssa.Convert); isCv {
+				if db, ok := cv.Type().Underlying().(*types.Basic); ok {
+					if sb, ok2 := cv.X.Type().Underlying().(*types.Basic); ok2 && db.Info()&types.IsInteger != 0 && sb.Info()&types.IsInteger != 0 && intWidth(db) < intWidth(sb) {
+						narrowed = fname + " (" + sb.Name() + " -> " + db.Name() + ")"
+					}
+				}
+			}
+		}
+		c.Check(narrowed == "", "R2", key+" keeps the full width of its components", k.use.Pos(), "no narrowing conversion", "the cache key component "+narrowed+" is narrowed: prefix ids come from a process-wide table that grows with every WAF ever built, so two different transformation lists (or two lengths) become equal modulo the narrower width and share an entry")
 		ok := ptrOK && lenOK && idOK && len(k.fields) == 3
 		c.Check(ok, "R2", key+" identifies the input by value identity", k.use.Pos(),
 			"key = (data pointer of arg.Value(), len(arg.Value()), prefix id): "+strings.Join(descr, ", "),
@@ -355,6 +366,29 @@ func internTables(c *an.Ctx, R string, withRuleFields bool) {
 		}
 		c.MinCount(R, "AddTransformation call sites", nAdd, 1)
 	}
+	// a new name always gets its own id: transformationID never hands back the id it was given (a repeated
+	// transformation — t:urlDecode,t:urlDecode — is a different list from the single one)
+	if tid := c.Fn(R, "internal/corazawaf.transformationID"); tid != nil && len(tid.Params) > 0 {
+		bad := false
+		an.Instrs(tid, func(in ssa.Instruction) {
+			if r, ok := in.(*ssa.Return); ok && len(r.Results) == 1 {
+				if r.Results[0] == ssa.Value(tid.Params[0]) {
+					bad = true
+				}
+				// with a deferred unlock the result travels through a result cell
+				if u, ok := r.Results[0].(*ssa.UnOp); ok {
+					if a, ok := u.X.(*ssa.Alloc); ok {
+						for _, ref := range *a.Referrers() {
+							if st, ok := ref.(*ssa.Store); ok && st.Addr == ssa.Value(a) && st.Val == ssa.Value(tid.Params[0]) {
+								bad = true
+							}
+						}
+					}
+				}
+			}
+		})
+		c.Check(!bad, R, "transformationID: every list gets the id of its own name", tid.Pos(), "no return of the parent id", "transformationID can return the id it was called with: some longer transformation list is given the id of its prefix, so rules with different lists share cache entries")
+	}
 	// the two tables are inverses of each other: the name recorded for a new id is the name it is looked up by,
 	// and that name is built from the parent's recorded name and the transformation added
 	if tid := c.Fn(R, "internal/corazawaf.transformationID"); tid != nil {
@@ -464,4 +498,16 @@ func internTables(c *an.Ctx, R string, withRuleFields bool) {
 func isStringType(t types.Type) bool {
 	b, ok := t.Underlying().(*types.Basic)
 	return ok && b.Kind() == types.String
+}
+
+func intWidth(b *types.Basic) int {
+	switch b.Kind() {
+	case types.Int8, types.Uint8:
+		return 8
+	case types.Int16, types.Uint16:
+		return 16
+	case types.Int32, types.Uint32:
+		return 32
+	}
+	return 64
 }
